@@ -64,9 +64,7 @@ def static_cases(seed):
 def run(ctx):
     global _CFG
     _CFG = mk_cfg(ctx)
-    depth = 8 if ctx.thorough else 6
-    if ctx.thorough:
-        depth = 6
+    depth = 9 if ctx.thorough else 8
     res = bfs(run_h, depth, ctx)
     n_static, v_static = static_cases(ctx.seed)
     cov = {
